@@ -7,7 +7,7 @@
    of all threads; a schedule is an arbitrary list of thread ids.  Every theorem is for all cfg and
    all schedules. *)
 From Coq Require Import List Arith Bool.
-From PV Require Import Model.Reporter Proofs.Reporter.
+From PV Require Import Model.Reporter Proofs.Reporter Proofs.ReporterErase.
 Import ListNotations.
 
 (* the user's reporter is never entered concurrently: a thread inside reporter.Error or
@@ -81,6 +81,19 @@ Theorem C08_warnings_inert : forall cfg s t s',
 Proof. exact warnings_inert_lemma. Qed.
 Print Assumptions C08_warnings_inert.
 
+(* warnings are erasable: whatever a run does, the same configuration with every HandleWarning removed
+   from the programs has a run that ends with the same handler fields (so the same Error() everywhere),
+   the same reporter.Error calls and the same results of all other operations *)
+Theorem C08_warnings_erasable : forall cfg sched, exists sched',
+  let s := run cfg sched (init cfg) in
+  let s' := run (erase_cfg cfg) sched' (init (erase_cfg cfg)) in
+  (forall h, hs s' h = hs s h) /\ (forall h, error_result (hs s' h) = error_result (hs s h)) /\
+  ncalls s' = ncalls s /\ rlog s' = erase_rlog (rlog s) /\
+  (forall t, tlog (threads s' t) = erase_log (tlog (threads s t))) /\
+  (forall t, finished (threads s t) = true -> finished (threads s' t) = true).
+Proof. exact warnings_erasable_lemma. Qed.
+Print Assumptions C08_warnings_erasable.
+
 (* Error() of the root is nil exactly when no HandleError call has passed the root; Error() of a
    sub-handler is nil exactly when no HandleError call returned through it; so after any completed
    HandleError call neither the root nor the handler it was issued on reports success *)
@@ -138,4 +151,17 @@ Example C08_nonvacuous :
   rev (map entry_obs (tlog (threads s 0))) = [Some (Some (ERep 2)); Some (Some (ERep 2)); Some (Some (ERep 2)); Some (Some (ERep 2))] /\
   rev (map entry_obs (tlog (threads s 1))) = [None; Some None; Some (Some EInvalidSource)] /\
   error_result (hs s 0) = Some (ERep 2).
+Proof. vm_compute. repeat split; reflexivity. Qed.
+
+(* a remark, not a defect: the documentation of SubHandler promises a consistent view only to a sub-handler
+   that is used by one goroutine.  When two goroutines share one, a stale nil can overwrite the latched
+   error in the sub-handler copy: its Error() is then ErrInvalidSource (never nil, see
+   C08_success_iff_no_error) while the root, which is what Compile returns, has the reporter's error. *)
+Definition C08_shared_cfg : config :=
+  {| parent := fun _ => 0; rep := policy 2 false;
+     progs := fun t => match t with 0 => [OErr 1 true 1] | 1 => [OErr 1 true 2] | _ => [] end |}.
+Example C08_shared_sub_handler_remark :
+  let s := run C08_shared_cfg ([0;0;0;0;0] ++ repeat 1 7 ++ [0;0]) (init C08_shared_cfg) in
+  finished (threads s 0) = true /\ finished (threads s 1) = true /\
+  error_result (hs s 0) = Some (ERep 2) /\ error_result (hs s 1) = Some EInvalidSource.
 Proof. vm_compute. repeat split; reflexivity. Qed.
